@@ -222,7 +222,14 @@ def rule_bool_total(ctx: Ctx, rep: Report) -> None:
     rep.ob(rule, f"{MU}.partial_sig_verify_", esc <= allowed, pv.where(), f"documented to raise for unparseable contributions: {sorted(esc)}")
 
 
+def rule_params_forwarded_(ctx: Ctx, rep: Report) -> None:
+    """C16.params_forwarded: a parameter is handed on to callees that have a parameter of the same name (see sigcommon.rule_params_forwarded)."""
+    from rules.sigcommon import rule_params_forwarded
+    rule_params_forwarded(ctx, rep, "C16.params_forwarded", ('btclib.ecc.musig2', 'btclib.ecc.ecies', 'btclib.ecc.dh', 'btclib.ecc.dleq', 'btclib.silent_payments', 'btclib.psbt.silent_payments', 'btclib.psbt.musig2', 'btclib.ecc.ellswift'), 80)
+
+
 RULES = [
+    ("C16.params_forwarded", rule_params_forwarded_),
     ("C16.ecies_order", rule_ecies_order),
     ("C16.sp_shared", rule_sp_shared),
     ("C16.musig_store", rule_musig_store),
